@@ -89,3 +89,43 @@ Proof.
   - intros H. destruct (A H) as [w'' [E2 _]]. eauto.
   - intros H. apply B. lia.
 Qed.
+
+(* ---------------------------------------------------------------- the same for received datagrams and expiries *)
+
+Theorem step_write_failure_recv w peer seq m e :
+  step w (EvRecvWF peer seq m e) = write_fails (step w (EvRecv peer seq m e)).
+Proof. reflexivity. Qed.
+
+Theorem step_write_failure_timeout w peer seq :
+  step w (EvTimeoutTxWF peer seq) = write_fails (step w (EvTimeoutTx peer seq)).
+Proof. reflexivity. Qed.
+
+Theorem recv_write_failure_same_state w peer seq m e w' o :
+  step w (EvRecv peer seq m e) = Ok (w', o) -> step w (EvRecvWF peer seq m e) = Ok (w', drop_sends o).
+Proof. rewrite step_write_failure_recv. intros ->. reflexivity. Qed.
+
+Theorem timeout_write_failure_same_state w peer seq w' o :
+  step w (EvTimeoutTx peer seq) = Ok (w', o) -> step w (EvTimeoutTxWF peer seq) = Ok (w', drop_sends o).
+Proof. rewrite step_write_failure_timeout. intros ->. reflexivity. Qed.
+
+(* a Heartbeat Request whose response is lost in the socket: the response is retained all the same, and the
+   retransmitted request is answered with it (the first copy the peer sees), without being executed *)
+Theorem lost_heartbeat_response_retained w peer seq e e' :
+  klookup (peer, seq) (w_rx w) = None ->
+  exists w', step w (EvRecvWF peer seq MHeartbeat e) = Ok (w', []) /\
+             step w' (EvRecv peer seq MHeartbeat e') = Ok (w', [OSend peer (PHeartbeatRsp seq) true]).
+Proof.
+  intros H. rewrite step_write_failure_recv. cbn [step is_request]. unfold recv_request at 1. rewrite H. unfold send_rsp.
+  cbn [set_rx w_rx]. rewrite klookup_kset_same. eexists. split; [reflexivity|].
+  unfold recv_request. cbn [set_rx w_rx]. rewrite klookup_kset_same. reflexivity.
+Qed.
+
+(* an expiry whose retransmission is lost in the socket counts against the budget like any other *)
+Theorem lost_retransmission_counted w peer seq t :
+  klookup (peer, seq) (w_tx w) = Some t -> tx_count t < w_maxretrans w ->
+  exists w', step w (EvTimeoutTxWF peer seq) = Ok (w', []) /\
+             klookup (peer, seq) (w_tx w') = Some (mkTx (tx_pdu t) (tx_count t + 1) (tx_rseid t)).
+Proof.
+  intros K Hlt. destruct (tx_retry_budget w peer seq t K) as [A _]. destruct (A Hlt) as [w' [E K']].
+  exists w'. split; [|exact K']. rewrite step_write_failure_timeout, E. reflexivity.
+Qed.
